@@ -125,8 +125,14 @@ fn check_window(r: &mut Report, thorough: bool) {
     let msss: [Option<u16>; 8] = [None, Some(0), Some(1), Some(99), Some(100), Some(536), Some(1460), Some(65535)];
     let check = |r: &mut Report, obs: &WindowSize, sig: &WindowSize, mss: Option<u16>| {
         let Some(exp) = ref_win(obs, sig, mss) else { return };
-        let got = obs.distance_window_size(sig, mss);
         r.exec(1);
+        let got = match guarded(|| obs.distance_window_size(sig, mss)) {
+            Ok(g) => g,
+            Err(p) => {
+                r.dev("C12/window-distance-panics", "panic", || json!({"observed": format!("{obs:?}"), "signature": format!("{sig:?}"), "mss": mss, "detail": p}));
+                return;
+            }
+        };
         r.outcome(&("win", got, std::mem::discriminant(obs), std::mem::discriminant(sig)));
         if got != exp {
             let class = match (obs, sig) {
@@ -279,7 +285,7 @@ fn check_whole(r: &mut Report) {
                 let class = if exp.is_some() && got.is_none() && f.quirks.0 != f.quirks.1 && set_eq(&f.quirks.0, &f.quirks.1) {
                     "quirks-compared-as-ordered-list".to_string()
                 } else {
-                    let wgot = f.win.0.distance_window_size(&f.win.1, f.mss.0);
+                    let wgot = guarded(|| f.win.0.distance_window_size(&f.win.1, f.mss.0)).unwrap_or(None);
                     match ref_win(&f.win.0, &f.win.1, f.mss.0) {
                         Some(w) if w != wgot => match (&f.win.0, &f.win.1) {
                             (WindowSize::Value(_), WindowSize::Mss(_)) => "window-raw-vs-mss-multiple-ignores-remainder".to_string(),
